@@ -348,6 +348,49 @@ __attribute__((noinline)) static void clobber_stack(void) {
   for (size_t i = 0; i < sizeof junk; i++) junk[i] = 0;
 }
 
+// The leak check of the sanitizer build stops the world and scans the heap (seconds on the verification
+// machines): it is run only for the first occurrence (per harness process: the table lives in memory
+// shared with the workers) of each distinct outcome text, which is what determines the code path taken.
+#if HAVE_LSAN
+#include <sys/mman.h>
+typedef struct { unsigned long long seen[128]; int cnt[128]; int leaky[128]; int n; } LeakMemo;
+static LeakMemo* leak_memo = NULL;
+// outcome class of a result text: what determines the exit path taken through the loader
+static unsigned long long outcome_class(const char* t) {
+  char key[200];
+  const char* r;
+  if (strstr(t, "| Invalid sizes")) snprintf(key, sizeof key, "makemodel-reject");
+  else if (!strncmp(t, "reject Model ", 13) && !strstr(t, "too large")) snprintf(key, sizeof key, "header-reject");
+  else if (!strncmp(t, "reject Invalid model", 20) || !strncmp(t, "reject Touch sensor", 19)) snprintf(key, sizeof key, "validate-reject");
+  else if ((r = strstr(t, "while reading ")) && strncmp(r + 14, "sizes", 5) && strncmp(r + 14, "structs", 7)) snprintf(key, sizeof key, "array-truncated");
+  else {
+    snprintf(key, sizeof key, "%s", t);
+    char* nb = strstr(key, " nbuf="); if (nb) *nb = 0;
+    if (!strncmp(key, "ok", 2)) key[2] = 0;
+  }
+  unsigned long long h = 1469598103934665603ULL;
+  for (const char* c = key; *c; c++) { h ^= (unsigned char)*c; h *= 1099511628211ULL; }
+  return h;
+}
+// 1: run the leak check now; 0: skip it; -1: skip it and retire the worker (the class is known to leak: the
+// leaked block must not be attributed to a later op)
+static int leak_check_due(const char* outcome) {
+  if (!leak_memo) return 1;
+  unsigned long long h = outcome_class(outcome);
+  for (int i = 0; i < leak_memo->n; i++) if (leak_memo->seen[i] == h) {
+    if (leak_memo->leaky[i] && leak_memo->cnt[i] >= 1) return -1;
+    return leak_memo->cnt[i]++ < 1;
+  }
+  if (leak_memo->n < 128) { leak_memo->seen[leak_memo->n] = h; leak_memo->cnt[leak_memo->n] = 1; leak_memo->n++; }
+  return 1;
+}
+static void leak_found(const char* outcome) {
+  if (!leak_memo) return;
+  unsigned long long h = outcome_class(outcome);
+  for (int i = 0; i < leak_memo->n; i++) if (leak_memo->seen[i] == h) leak_memo->leaky[i] = 1;
+}
+#endif
+
 // runs in a worker: result text goes to fd (the caller terminates the line); returns 1 when the worker
 // should retire (a leak was reported: later reports would repeat it)
 static int child_load(const unsigned char* buf, int n, int fd, int with_oracle) {
@@ -373,7 +416,9 @@ static int child_load(const unsigned char* buf, int n, int fd, int with_oracle) 
 #if HAVE_LSAN
     stage = "leakcheck";
     clobber_stack();
-    if (__lsan_do_recoverable_leak_check()) { wr(fd, " ; leak=1"); retire = 1; }
+    int due = leak_check_due(t);
+    if (due < 0) retire = 1;
+    else if (due && __lsan_do_recoverable_leak_check()) { wr(fd, " ; leak=1"); retire = 1; leak_found(t); }
 #endif
     alarm(0);
     return retire;
@@ -412,7 +457,9 @@ static int child_load(const unsigned char* buf, int n, int fd, int with_oracle) 
 #if HAVE_LSAN
   stage = "leakcheck";
   clobber_stack();
-  if (__lsan_do_recoverable_leak_check()) { wr(fd, with_oracle ? " leak=1" : " ; leak=1"); retire = 1; }
+  int due = leak_check_due("ok");
+  if (due < 0) retire = 1;
+  else if (due && __lsan_do_recoverable_leak_check()) { wr(fd, with_oracle ? " leak=1" : " ; leak=1"); retire = 1; leak_found("ok"); }
 #endif
   alarm(0);
   return retire;
@@ -554,7 +601,9 @@ static void worker_load(const char* spec, int with_oracle, Str* out) {
       respawns++; free(got.s); free(err.s);
       continue;
     }
-    if (!first_op && attempt == 0) { attempt++; free(got.s); free(err.s); continue; }
+    int sanitizer_report = err.s && (strstr(err.s, "ERROR: ") || strstr(err.s, "runtime error:"));
+    // (a sanitizer stops at the faulty access: no contamination from earlier ops, no need to re-run alone)
+    if (!first_op && attempt == 0 && !sanitizer_report) { attempt++; free(got.s); free(err.s); continue; }
     if (got.s) s_str(out, got.s);
     if (clean_exit) {
       // mju_error / timeout / canary handlers write their text and exit(0) without the newline
@@ -603,6 +652,10 @@ static void set_model(mjModel* m) {
 
 int main(void) {
   signal(SIGPIPE, SIG_IGN);
+#if HAVE_LSAN
+  leak_memo = (LeakMemo*)mmap(NULL, sizeof(LeakMemo), PROT_READ | PROT_WRITE, MAP_SHARED | MAP_ANONYMOUS, -1, 0);
+  if (leak_memo == MAP_FAILED) leak_memo = NULL; else memset(leak_memo, 0, sizeof(LeakMemo));
+#endif
   mju_user_warning = on_warning;
   mju_user_error = on_error;
   mju_user_malloc = cap_malloc;
